@@ -140,13 +140,13 @@ def run_agg(tape, prop, tier):
         try:
             await d.run(stop_signals=[])
             out["o"] = "returned"
-        except Exception as e_:
+        except (Exception, asyncio.CancelledError) as e_:
             out["o"] = f"raised {type(e_).__name__}: {e_}"
         ft.cancel()
         return loop
 
     try:
-        loop = run_sim(main, salt=0, wall_offset=wall0, max_steps=4_000_000,
+        loop = run_sim(main, salt=0, wall_offset=wall0, max_steps=4_000_000, wall_limit=20,
                        late_seed=late_seed if late else None, late_prob=0.3, late_max=late_max)
         res.vtime = loop.time()
         res.steps = loop.steps
@@ -401,7 +401,7 @@ def run_csv(tape, prop, tier):
             try:
                 await d.run(stop_signals=[])
                 out["o"] = "returned"
-            except Exception as e_:
+            except (Exception, asyncio.CancelledError) as e_:
                 out["o"] = f"raised {type(e_).__name__}: {e_}"
             return loop
         try:
